@@ -77,6 +77,78 @@ def expect_money(cur, body_check, out):
     return out[:len(out) - len(post)]
 
 
+DERIVED = [
+    # lines of other features whose result is an ordinary number / percentage / amount of money / unit quantity: whatever the value
+    # is, it must be printed by the same rule (the value is read from the result, the print is judged against it)
+    ('number', '{hex} to decimal'), ('number', '{a} to decimal'), ('number', '{a} * {b}'), ('number', '{a} / {b}'), ('number', '{a} - {b}'),
+    ('number', 'zq = {hex} to decimal\nzq / 1000'), ('number', 'zq = {a}\nzq * {b}'), ('number', '{p}% of {a}'), ('number', '{a} + {p}%'),
+    ('number', '{a} km / {b} m'), ('number', '0b101101 to decimal'), ('number', '{a} to decimal * 3'),
+    ('percent', '{a} is what % of {b}'), ('percent', '{p}% + {p}%'),
+    ('money', '{a} usd * {b}'), ('money', '{a} usd to eur'), ('money', '${a} + {b} eur'), ('money', '{p}% of {a} jpy'), ('money', '{a} try / 7'),
+    ('money', '{a} uah + {b} uah'), ('money', '{a} xof * 3'), ('money', '{a} kwd / 3'),
+    ('unit', '{a} km to m'), ('unit', '{a} mb to kb'), ('unit', '{a} kg + {b} g'), ('unit', '{a} mile to km'), ('unit', 'zq = {a} gb\nzq to mb'),
+]
+
+
+def judge_print(slot, kind, cfg, sep, curs, units_by_key):
+    """-> None or a reason: the printed form of the value the slot itself carries"""
+    x = mon.fval(slot)
+    out = slot['out']
+    v = slot['v']
+    if kind == 'number':
+        if v.get('t') != 'Decimal':
+            return 'the result is a %s number, expected an ordinary decimal number' % v.get('t')
+        return check_print(x, out, sep, cfg['digits'], cfg['rm'], cfg['round'])
+    if kind == 'percent':
+        if not out.startswith('%'):
+            return 'no % prefix'
+        return check_print(x, out[1:], sep, cfg['pdigits'], cfg['rm'], cfg['round'])
+    if kind == 'money':
+        info = curs[v['code'].lower()]
+        body = expect_money(info, None, out)
+        if body is None:
+            return 'symbol %r / placement (left=%s, space=%s) not respected' % (info['symbol'], info['symbolOnLeft'], info['spaceBetweenAmountAndSymbol'])
+        return check_print(x, body, sep, info['decimalDigits'], cfg['mrm'], cfg['mround'])
+    info = units_by_key.get((v.get('group'), v.get('index')))
+    if info is None:
+        return 'unknown unit %r' % (v,)
+    pre, post = info['format'].split('{value}')
+    if not (out.startswith(pre) and out.endswith(post)):
+        return 'unit format %r not respected' % info['format']
+    body = out[len(pre):len(out) - len(post)]
+    return check_print(x, body, sep, info['digits'] if info['digits'] is not None else 2, info['rm'] if info['rm'] is not None else True,
+                       info['round'] if info['round'] is not None else True)
+
+
+def run_derived(ctx, drv, cfg, sep, curs, units_by_key):
+    rng, res = ctx.rng, ctx.res
+    items, meta = [], []
+    for _ in range(60):
+        kind, tpl = rng.choice(DERIVED)
+        a = rng.choice(['1234567', '999.995', '1000', '0.5', '12345.678', '2.675', '1234567.891', '86400', '7', '1999.5'])
+        b = rng.choice(['3', '7', '1000', '0.25', '12.5', '999'])
+        text = (tpl.replace('{a}', render_literal(a, sep, rng.random() < 0.3)).replace('{b}', render_literal(b, sep))
+                .replace('{p}', render_literal(rng.choice(['10', '12.5', '150', '0.5']), sep)).replace('{hex}', rng.choice(['0x12D687', '0xFF', '0o7777777', '0b1111101000'])))
+        items.append(('en', text))
+        meta.append((kind, tpl, text))
+    for (kind, tpl, text), r in zip(meta, mon.run_lines(drv, cfg, items)):
+        slot = mon.last_slot(r)
+        res.cases += 1
+        res.count('kind:derived-' + kind)
+        res.distinct.add('derived', sep, cfg['digits'], cfg['rm'], cfg['round'], cfg['mrm'], cfg['mround'], text)
+        if mon.kind(slot) != kind:
+            res.count('derived_lines_of_another_kind_not_judged')       # what the line means is judged by its own property
+            continue
+        why = judge_print(slot, kind, cfg, sep, curs, units_by_key)
+        if why is None:
+            res.count('ok')
+            continue
+        res.violation('print:derived:%s:%s' % (kind, tpl.split('\n')[-1].replace(' ', '_')), '%r under separators %r, settings %s: prints %r for the value %r: %s'
+                      % (text, sep, {k: cfg[k] for k in ('digits', 'pdigits', 'rm', 'round', 'mrm', 'mround')}, slot['out'], mon.fval(slot), why),
+                      {'config': dict(cfg), 'lang': 'en', 'text': text, 'observed': mon.describe(slot),
+                       'ops': mon.gh.config_ops(cfg) + [{'op': 'execute', 'lang': 'en', 'text': text}]})
+
+
 def run_shard(ctx):
     rng = ctx.rng
     res = ctx.res
@@ -84,6 +156,7 @@ def run_shard(ctx):
     curs = lex.currencies()
     codes = sorted(curs)
     units = [u for u in lex.unit_table()]
+    units_by_key = {(u['group'], u['index']): u for u in units}
     while not ctx.out_of_time():
         sep = rng.choice(SEP_CONFIGS)
         exotic = rng.random() < 0.15
@@ -98,6 +171,8 @@ def run_shard(ctx):
             pd = rng.choice([10, 15, 19, 20, 22, 30])
         cfg = mon.cfg_with(dec=sep[0], thou=sep[1], digits=d, pdigits=pd, rm=rng.random() < 0.5, round=rng.random() < 0.8,
                            mrm=rng.random() < 0.5, mround=rng.random() < 0.8)
+        if not exotic and d < 10 and pd < 10:
+            run_derived(ctx, drv, cfg, sep, curs, units_by_key)
         items = []
         meta = []
         for _ in range(150):
